@@ -104,7 +104,9 @@ func NewNet(e *sim.Env, now time.Time, o NetOpts) *Net {
 
 	net := &Net{Network: n, Regime: regime}
 	for i := 0; i < o.Actors; i++ {
-		net.Actors = append(net.Actors, NewActor(e.Bytes(32)))
+		seed := e.Bytes(32)
+		seed[31] ^= byte(i + 1) // distinct keys even on an exhausted (all-zero) tape
+		net.Actors = append(net.Actors, NewActor(seed))
 	}
 	if !o.NoFoundation {
 		n.HardforkFoundation.PrimaryAddress = net.Actors[0].Addr
